@@ -51,6 +51,7 @@ def run(tier):
         for first in range(len(acts)):
             body = "    return c10k.k_history(%d, R, %d)" % (first, nprog)
             conds.append(chrun.Condition("C10:history:first=%s" % "/".join(map(str, acts[first])), [("R", "List[int]")], "len(R) <= %d and all(0 <= x < %d for x in R)" % (L - 1, len(acts)), body))
+        chrun.precompile_repo(wd, common.REPO)
         prelude = "from vf.kernels import c10k\nc10k.load_ref(%r)\n" % ref_path
         results, counts, st = chrun.check_conditions(conds, prelude, wd, per_cond_timeout=400 if tier == "quick" else 3000, batch=1, jobs=16, label="h")
         discharged = 0
